@@ -206,6 +206,25 @@ theorem C17_decode_empty_body (env : Env) (tgt : Nat) (w : World) :
 example : (decodeResponseBody true (envOf .none "empty".toList) (.ok "empty".toList) 0 ⟨[], [], [("x".toList, 1)]⟩).1 =
     .resp (some .json) (some ("x".toList, 1)) := by decide
 
+/-- **the body is the serializer's output for the given body — for every body VALUE.**  Only a nil pointer skips the serializer
+    (`fpgo.IsNil`); a nil slice, a nil map, an empty slice/map, a zero struct are values: the serializer is called on them and
+    its output (`null`, `[]`, `{}`, …) or its error is what `C17_once` sends / returns. -/
+theorem C17_value_bodies_serialized (d : ApiDef) (env : Env) (b : Body) (hk : d.kind = .body) :
+    serialize d env (some b) = (env.jsonSer b).map (·, d.contentType) ∧
+    serialize d env none = .ok ("nil".toList, d.contentType) := by
+  simp [serialize, hk]
+
+/-- a nil slice is sent as `null`; a serializer whose streaming reader breaks after 3 bytes makes the transport fail and the
+    failure is the response's `Err` (one request reached the transport, nothing is decoded) -/
+example :
+    let api : Api := ⟨"http://h".toList, none⟩
+    let w : World := ⟨[], [], [([], 0)]⟩
+    let d : ApiDef := ⟨.body, "POST".toList, "x".toList, "application/json".toList⟩
+    ((effect {} api d (envOf .none "ok76:1".toList) [] (some (.lit "null".toList)) 0 w).2.log.map (·.body)) = ["raw:6e756c6c".toList] ∧
+    (effect {} api d (envOf (.sstream (some 3)) "ok76:1".toList) [] (some (.lit "null".toList)) 0 w).1 = .resp (some .stream) none ∧
+    ((effect {} api d (envOf (.sstream (some 3)) "ok76:1".toList) [] (some (.lit "null".toList)) 0 w).2.log.map (·.body)) = ["sfail:3".toList] := by
+  decide
+
 /-- the pinned code (`tempTarget.(*R)` without comma-ok) panics when the deserializer returns `(nil, err)` -/
 theorem C17_pinned_decoder_panics :
     (decodeResponseBody false (envOf .dec "bad".toList) (.ok []) 0 ⟨[], [], [([], 0)]⟩).1 = .panic := by decide
